@@ -23,7 +23,7 @@ var c01Steps = []menuItem{
 	{"[?a]", "[?a]"}, {"[?a==1]", "[?a==`1`]"}, {"[?@]", "[?@]"}, {"[1:]", "[1:]"}, {"[::-1]", "[::-1]"},
 	{".[a]", ".[a]"}, {".[a,b]", ".[a,b]"}, {".{k:a}", ".{k:a}"}, {".{k:a,l:b}", ".{k:a,l:b}"},
 	{"|a", " | a"}, {"|[0]", " | [0]"}, {"|[*]", " | [*]"}, {"|@", " | @"}, {"|$", " | $"},
-	{".[@]", ".[@]"}, {".[$.a]", ".[$.a]"}, {"[?@==$.a]", "[?@ == $.a]"}, {".k", ".k"}, {".[*]", ".[*]"}, {"[?!a]", "[?!a]"},
+	{".[@]", ".[@]"}, {".[$.a]", ".[$.a]"}, {"[?@==$.a]", "[?@ == $.a]"}, {".k", ".k"}, {".[*]", ".[*]"}, {"[?!a]", "[?!a]"}, {"[:-2:-1]", "[:-2:-1]"}, {"[-2::-1]", "[-2::-1]"},
 }
 
 // the alphabet of the deep chains: selectors whose interaction inside a projection's right-hand side only shows after
@@ -98,6 +98,12 @@ func c01Expressions(thorough bool) []c01Expr {
 		}
 		deep(start, "deep "+start, 0)
 	}
+	// index boundaries (the compact index node holds 0..255): evaluated on 300-element arrays as well
+	for _, i := range []string{"126", "127", "128", "129", "200", "254", "255", "256", "257", "299", "300", "-1", "-127", "-128", "-129", "-255", "-256", "-257", "-300", "-301"} {
+		for _, form := range []string{"[%s]", "big[%s]", "big | [%s]", "(big)[%s]", "big[*] | [%s]", "wide[*][%s]", "wide[0][%s]", "big[%s:]", "big[:%s] | length(@)", "[big[%s], big | [%s]]", "map(&@[%s], wide)", "{k: big}.k[%s]"} {
+			add(strings.ReplaceAll(form, "%s", i), "index-boundary "+form)
+		}
+	}
 	// operators over short operands
 	operands := []string{"a", "b", "a.b", "a[0]", "a[*]", "a[*].b", "[0]", "@", "`1`", "`null`", "'s'", "a[?b]", "*", "a.*"}
 	for _, x := range operands {
@@ -111,6 +117,10 @@ func c01Expressions(thorough bool) []c01Expr {
 			add("let $v = "+x+" in [$v, "+y+"]", "let-list")
 		}
 		add("let $v = "+x+" in $v", "let-id")
+		for _, y := range operands {
+			add("let $v = "+x+" in let $v = "+y+" in $v", "let-shadow")
+			add("let $v = "+x+" in [let $v = "+y+" in $v, $v]", "let-shadow-ends")
+		}
 		add("let $v = "+x+" in a[*].[$v]", "let-in-projection")
 		add("let $v = "+x+" in a[?@ == $v]", "let-in-filter")
 		add("a[*].["+x+"]", "ms-in-projection")
@@ -179,6 +189,14 @@ func c01Run(r *core.Run) {
 		`{"a":{"a":{"a":{"a":{"a":{"a":1}}}}}}`, `[[[[[[1,null]]]]]]`, `{"a":[{"a":[{"a":[{"a":[{"a":1}]}]}]}]}`, `{"x":{"y":{"a":{"a":1}}},"a":[[{"u":{"a":{"a":7}}}]]}`} {
 		deepDocs = append(deepDocs, mkDoc(t))
 	}
+	seq := func(n int) string {
+		parts := make([]string, n)
+		for i := range parts {
+			parts[i] = fmt.Sprint(i)
+		}
+		return "[" + strings.Join(parts, ",") + "]"
+	}
+	bigDocs := []doc{mkDoc(`{"big":` + seq(300) + `,"wide":[` + seq(300) + `,` + seq(130) + `]}`), mkDoc(seq(300)), mkDoc(`{"big":` + seq(256) + `,"wide":[` + seq(129) + `]}`), mkDoc(seq(128)), mkDoc(`{"big":[1],"wide":[[1]]}`)}
 	before := make([]string, len(docs))
 	for i, d := range docs {
 		before[i] = core.Canon(core.Norm(d.Raw))
@@ -193,6 +211,9 @@ func c01Run(r *core.Run) {
 		ds := docs
 		if strings.HasPrefix(e.Shape, "deep ") {
 			ds = deepDocs
+		}
+		if strings.HasPrefix(e.Shape, "index-boundary ") {
+			ds = bigDocs
 		}
 		c01One(r, e.Text, e.Shape, ds)
 	}
